@@ -463,6 +463,16 @@ func driveRend(args []string) error {
 				if i%3 == 0 {
 					rect = cfg.rect
 				}
+				if i%5 == 4 {
+					// viewBox heights and target heights whose quotient is not a binary fraction (height / viewBox height *
+					// viewBox height is then not the height again in float32): the level of detail is decided on the height
+					// of the rectangle itself, and the programs' LOD bounds sit exactly on it
+					vh := []float32{7, 56, 100, 60, 3, 10.5}[i/5%6]
+					th := []int{31, 62, 117, 124, 227, 53, 59, 105, 106, 63, 125, 126, 127}[rng.Intn(13)]
+					cfg.vb = [4]float32{-2, 1, -2 + vh, 1 + vh}
+					rect = image.Rect(3, 2, 3+th, 2+th)
+					stats["vm.odd_height_ratios"]++
+				}
 				prog := genVMProgram(rng, cfg.vb, rect.Dy())
 				viaCopy = i%7 == 3
 				t := newTracedRenderer(sh.Next(), fmt.Sprintf("vm/%d", i), rect)
